@@ -401,7 +401,7 @@ func genFile(r *rand.Rand, idx int) File {
 				m.Form = []string{"short", "value", "none"}[r.Intn(3)]
 			}
 			if m.Form != "none" {
-				m.Path = []string{"/x", "/{id}", "/items/{id}/sub", "/", "orders", "orders/{id}"}[r.Intn(6)]
+				m.Path = []string{"/x", "/{id}", "/items/{id}/sub", "/", "orders", "orders/{id}", ""}[r.Intn(7)]
 			}
 		}
 		np := r.Intn(4)
